@@ -477,4 +477,136 @@ theorem pack_remaining_tie (pk : Pk) (h1 : pk.base + pk.size < 2 ^ 64) (h2 : pk.
   simp only [Int.bmod]
   split <;> omega
 
+/-! ### the byte-array functions (`memcpy` / `memset`) -/
+
+theorem sub_lt_iff (i a n : Nat) (hi : i < 2 ^ 64) (ha : a + n < 2 ^ 64) :
+    ((BitVec.ofNat 64 i - BitVec.ofNat 64 a).toNat < n) ↔ (a ≤ i ∧ i < a + n) := by
+  simp only [BitVec.toNat_sub, BitVec.toNat_ofNat]
+  rw [Nat.mod_eq_of_lt hi, Nat.mod_eq_of_lt (show a < 2 ^ 64 by omega)]
+  omega
+
+theorem getD_replicate_zero (n k : Nat) : (List.replicate n (0 : UInt8)).getD k 0 = 0 := by
+  simp only [List.getD_eq_getElem?_getD, List.getElem?_replicate]
+  split <;> rfl
+
+/-- **tie T, `rf_pack_bytes(pack, NULL, n)`** (`memset(q, 0, n)` iff the item fits) -/
+theorem pack_null_tie (m : Librfn.Model.Pack.Mem) (pk : Pk) (n : Nat) (mem : Gen.Mem) (habs : AbsM mem m)
+    (hn : n < 2 ^ 32) (h1 : pk.base + pk.size < 2 ^ 64) (h2 : pk.base + pk.cur + n < 2 ^ 64) :
+    let g := rf_pack_bytes (BitVec.ofNat 64 pk.base) (BitVec.ofNat 64 (pk.base + pk.size)) (BitVec.ofNat 64 (pk.base + pk.cur)) 0#64 (BitVec.ofNat 32 n) mem
+    g.ub = false ∧ g.exh = false ∧ g.pack_p = BitVec.ofNat 64 (pk.base + (packNull m pk n).2.cur) ∧ AbsM g.mem (packNull m pk n).1 := by
+  obtain ⟨a1, a2, _, _, a5⟩ := pack_bytes_generated (BitVec.ofNat 64 pk.base) (BitVec.ofNat 64 (pk.base + pk.size)) (BitVec.ofNat 64 (pk.base + pk.cur)) 0#64 (BitVec.ofNat 32 n) mem
+  have hm := pack_bytes_generated_mem (BitVec.ofNat 64 pk.base) (BitVec.ofNat 64 (pk.base + pk.size)) (BitVec.ofNat 64 (pk.base + pk.cur)) 0#64 (BitVec.ofNat 32 n) mem
+  have hsz : (BitVec.ofNat 32 n).setWidth 64 = BitVec.ofNat 64 n := by
+    apply BitVec.eq_of_toNat_eq; simp only [BitVec.toNat_setWidth, BitVec.toNat_ofNat]; omega
+  have hszn : (BitVec.ofNat 32 n).toNat = n := by simp only [BitVec.toNat_ofNat]; omega
+  refine ⟨a1, a2, ?_, ?_⟩
+  · rw [a5, hsz, ofNat64_add]; simp only [packNull, advance, Nat.add_assoc]
+  · intro i hi
+    rw [hm, hsz, fits_iff pk n h1 h2, hszn]
+    unfold packNull
+    by_cases hf : fits pk n = true
+    · simp only [hf, if_true]
+      rw [Mem.fill_app, writeBytes_apply, List.length_replicate]
+      by_cases hin : pk.base + pk.cur ≤ i ∧ i < pk.base + pk.cur + n
+      · rw [if_pos ((sub_lt_iff i (pk.base + pk.cur) n hi h2).2 hin), if_pos hin, getD_replicate_zero]; rfl
+      · rw [if_neg (fun h => hin ((sub_lt_iff i (pk.base + pk.cur) n hi h2).1 h)), if_neg hin]; exact habs i hi
+    · have hf' : fits pk n = false := by simpa using hf
+      simp only [hf', Bool.false_eq_true, if_false]; exact habs i hi
+
+/-- **tie T, `rf_pack_bytes(pack, src, n)`** with `src != NULL`: `bs` are the `n` bytes at `src` (`memcpy` iff the item fits) -/
+theorem pack_bytes_tie (m : Librfn.Model.Pack.Mem) (pk : Pk) (src : Nat) (bs : List UInt8) (mem : Gen.Mem) (habs : AbsM mem m)
+    (hs0 : src ≠ 0) (hsrc : src + bs.length < 2 ^ 64) (hbs : ∀ k, k < bs.length → bs.getD k 0 = m (src + k))
+    (hn : bs.length < 2 ^ 32) (h1 : pk.base + pk.size < 2 ^ 64) (h2 : pk.base + pk.cur + bs.length < 2 ^ 64) :
+    let g := rf_pack_bytes (BitVec.ofNat 64 pk.base) (BitVec.ofNat 64 (pk.base + pk.size)) (BitVec.ofNat 64 (pk.base + pk.cur))
+      (BitVec.ofNat 64 src) (BitVec.ofNat 32 bs.length) mem
+    g.ub = false ∧ g.exh = false ∧ g.pack_p = BitVec.ofNat 64 (pk.base + (packBytes m pk bs).2.cur) ∧ AbsM g.mem (packBytes m pk bs).1 := by
+  obtain ⟨a1, a2, _, _, a5⟩ := pack_bytes_generated (BitVec.ofNat 64 pk.base) (BitVec.ofNat 64 (pk.base + pk.size)) (BitVec.ofNat 64 (pk.base + pk.cur)) (BitVec.ofNat 64 src) (BitVec.ofNat 32 bs.length) mem
+  have hm := pack_bytes_generated_mem (BitVec.ofNat 64 pk.base) (BitVec.ofNat 64 (pk.base + pk.size)) (BitVec.ofNat 64 (pk.base + pk.cur)) (BitVec.ofNat 64 src) (BitVec.ofNat 32 bs.length) mem
+  have hsz : (BitVec.ofNat 32 bs.length).setWidth 64 = BitVec.ofNat 64 bs.length := by
+    apply BitVec.eq_of_toNat_eq; simp only [BitVec.toNat_setWidth, BitVec.toNat_ofNat]; omega
+  have hszn : (BitVec.ofNat 32 bs.length).toNat = bs.length := by simp only [BitVec.toNat_ofNat]; omega
+  have hsrc0 : ¬ BitVec.ofNat 64 src = 0#64 := by
+    intro h; have := congrArg BitVec.toNat h; simp only [BitVec.toNat_ofNat] at this; omega
+  refine ⟨a1, a2, ?_, ?_⟩
+  · rw [a5, hsz, ofNat64_add]; simp only [packBytes, packRaw, advance, Nat.add_assoc]
+  · intro i hi
+    rw [hm, hsz, fits_iff pk bs.length h1 h2, hszn, if_neg hsrc0]
+    unfold packBytes packRaw
+    by_cases hf : fits pk bs.length = true
+    · simp only [hf, if_true]
+      rw [Mem.copy_app, writeBytes_apply]
+      by_cases hin : pk.base + pk.cur ≤ i ∧ i < pk.base + pk.cur + bs.length
+      · rw [if_pos ((sub_lt_iff i (pk.base + pk.cur) bs.length hi h2).2 hin), if_pos hin, hbs _ (by omega)]
+        have e : BitVec.ofNat 64 src + (BitVec.ofNat 64 i - BitVec.ofNat 64 (pk.base + pk.cur)) = BitVec.ofNat 64 (src + (i - (pk.base + pk.cur))) := by
+          apply BitVec.eq_of_toNat_eq
+          simp only [BitVec.toNat_add, BitVec.toNat_sub, BitVec.toNat_ofNat]
+          rw [Nat.mod_eq_of_lt hi, Nat.mod_eq_of_lt (show pk.base + pk.cur < 2 ^ 64 by omega), Nat.mod_eq_of_lt (show src < 2 ^ 64 by omega)]
+          omega
+        rw [e]; exact habs _ (by omega)
+      · rw [if_neg (fun h => hin ((sub_lt_iff i (pk.base + pk.cur) bs.length hi h2).1 h)), if_neg hin]; exact habs i hi
+    · have hf' : fits pk bs.length = false := by simpa using hf
+      simp only [hf', Bool.false_eq_true, if_false]; exact habs i hi
+
+theorem readBytes_getD (m : Librfn.Model.Pack.Mem) (a n k : Nat) (hk : k < n) : (readBytes m a n).getD k 0 = m (a + k) := by
+  induction n generalizing a k with
+  | zero => omega
+  | succ n ih =>
+    cases k with
+    | zero => simp [readBytes]
+    | succ k => simp only [readBytes, List.getD_cons_succ]; rw [ih (a + 1) k (by omega)]; congr 1; omega
+
+/-- **tie T, `rf_unpack_bytes(pack, dst, n)`** with `dst != NULL`: afterwards the `n` bytes at `dst` are the list the model
+    returns (the item when it fits, zeros when it does not); the cursor advances by `n` either way -/
+theorem unpack_bytes_tie (m : Librfn.Model.Pack.Mem) (pk : Pk) (dst n : Nat) (mem : Gen.Mem) (habs : AbsM mem m)
+    (hd0 : dst ≠ 0) (hdst : dst + n < 2 ^ 64) (hn : n < 2 ^ 32) (h1 : pk.base + pk.size < 2 ^ 64) (h2 : pk.base + pk.cur + n < 2 ^ 64) :
+    let g := rf_unpack_bytes (BitVec.ofNat 64 pk.base) (BitVec.ofNat 64 (pk.base + pk.size)) (BitVec.ofNat 64 (pk.base + pk.cur))
+      (BitVec.ofNat 64 dst) (BitVec.ofNat 32 n) mem
+    g.ub = false ∧ g.exh = false ∧ g.pack_p = BitVec.ofNat 64 (pk.base + (unpackBytes m pk n).2.cur) ∧
+    (∀ k, k < n → UInt8.ofBitVec (g.mem (BitVec.ofNat 64 (dst + k))) = (unpackBytes m pk n).1.getD k 0) ∧
+    (∀ i, i < 2 ^ 64 → ¬ (dst ≤ i ∧ i < dst + n) → g.mem (BitVec.ofNat 64 i) = mem (BitVec.ofNat 64 i)) := by
+  obtain ⟨a1, a2, _, _, a5⟩ := unpack_bytes_generated (BitVec.ofNat 64 pk.base) (BitVec.ofNat 64 (pk.base + pk.size)) (BitVec.ofNat 64 (pk.base + pk.cur)) (BitVec.ofNat 64 dst) (BitVec.ofNat 32 n) mem
+  have hm := unpack_bytes_generated_mem (BitVec.ofNat 64 pk.base) (BitVec.ofNat 64 (pk.base + pk.size)) (BitVec.ofNat 64 (pk.base + pk.cur)) (BitVec.ofNat 64 dst) (BitVec.ofNat 32 n) mem
+  have hsz : (BitVec.ofNat 32 n).setWidth 64 = BitVec.ofNat 64 n := by
+    apply BitVec.eq_of_toNat_eq; simp only [BitVec.toNat_setWidth, BitVec.toNat_ofNat]; omega
+  have hszn : (BitVec.ofNat 32 n).toNat = n := by simp only [BitVec.toNat_ofNat]; omega
+  have hdst0 : ¬ BitVec.ofNat 64 dst = 0#64 := by
+    intro h; have := congrArg BitVec.toNat h; simp only [BitVec.toNat_ofNat] at this; omega
+  refine ⟨a1, a2, ?_, ?_, ?_⟩
+  · rw [a5, hsz, ofNat64_add]; simp only [unpackBytes, advance, Nat.add_assoc]
+  · intro k hk
+    rw [hm, if_neg hdst0, hsz, fits_iff pk n h1 h2, hszn]
+    unfold unpackBytes
+    have hin := (sub_lt_iff (dst + k) dst n (by omega) hdst).2 ⟨by omega, by omega⟩
+    by_cases hf : fits pk n = true
+    · simp only [hf, if_true]
+      rw [Mem.copy_app, if_pos hin, readBytes_getD m _ n k hk]
+      have e : BitVec.ofNat 64 (pk.base + pk.cur) + (BitVec.ofNat 64 (dst + k) - BitVec.ofNat 64 dst) = BitVec.ofNat 64 (pk.base + pk.cur + k) := by
+        apply BitVec.eq_of_toNat_eq
+        simp only [BitVec.toNat_add, BitVec.toNat_sub, BitVec.toNat_ofNat]
+        rw [Nat.mod_eq_of_lt (show dst + k < 2 ^ 64 by omega), Nat.mod_eq_of_lt (show dst < 2 ^ 64 by omega), Nat.mod_eq_of_lt (show pk.base + pk.cur < 2 ^ 64 by omega)]
+        omega
+      rw [e, habs _ (by omega)]
+    · have hf' : fits pk n = false := by simpa using hf
+      simp only [hf', Bool.false_eq_true, if_false]
+      rw [Mem.fill_app, if_pos hin, getD_replicate_zero]; rfl
+  · intro i hi hout
+    rw [hm, if_neg hdst0, hsz, hszn]
+    have hno := fun h => hout ((sub_lt_iff i dst n hi hdst).1 h)
+    split
+    · rw [Mem.copy_app, if_neg hno]
+    · rw [Mem.fill_app, if_neg hno]
+
+/-- **tie T, `rf_unpack_bytes(pack, NULL, n)`**: only the cursor moves -/
+theorem unpack_skip_tie (pk : Pk) (n : Nat) (mem : Gen.Mem) (hn : n < 2 ^ 32) :
+    let g := rf_unpack_bytes (BitVec.ofNat 64 pk.base) (BitVec.ofNat 64 (pk.base + pk.size)) (BitVec.ofNat 64 (pk.base + pk.cur))
+      0#64 (BitVec.ofNat 32 n) mem
+    g.ub = false ∧ g.exh = false ∧ g.pack_p = BitVec.ofNat 64 (pk.base + (unpackSkip pk n).cur) ∧ g.mem = mem := by
+  obtain ⟨a1, a2, _, _, a5⟩ := unpack_bytes_generated (BitVec.ofNat 64 pk.base) (BitVec.ofNat 64 (pk.base + pk.size)) (BitVec.ofNat 64 (pk.base + pk.cur)) 0#64 (BitVec.ofNat 32 n) mem
+  have hm := unpack_bytes_generated_mem (BitVec.ofNat 64 pk.base) (BitVec.ofNat 64 (pk.base + pk.size)) (BitVec.ofNat 64 (pk.base + pk.cur)) 0#64 (BitVec.ofNat 32 n) mem
+  have hsz : (BitVec.ofNat 32 n).setWidth 64 = BitVec.ofNat 64 n := by
+    apply BitVec.eq_of_toNat_eq; simp only [BitVec.toNat_setWidth, BitVec.toNat_ofNat]; omega
+  refine ⟨a1, a2, ?_, ?_⟩
+  · rw [a5, hsz, ofNat64_add]; simp only [unpackSkip, advance, Nat.add_assoc]
+  · rw [hm, if_pos rfl]
+
 end Librfn.C12.Tie
